@@ -933,6 +933,46 @@ func (il *inliner) inlineCall(pk *packages.Package, f *ast.File, file string, st
 	for i := 0; i < nres; i++ {
 		resTemps = append(resTemps, fmt.Sprintf("%s_r%d", k, i))
 	}
+	// defer statements of the body's statement list: the deferred call is made at every exit behind it (results
+	// assigned first), in reverse order of registration
+	type deferredCall struct {
+		pos  token.Pos
+		text string
+	}
+	var deferred []deferredCall
+	if convertDefers {
+		for _, d := range di.defers {
+			cs, ce := ctf.Offset(d.Call.Pos())-bodyStart, ctf.Offset(d.Call.End())-bodyStart
+			var inner, rest []textEdit
+			for _, e := range bodyEdits {
+				if e.off >= cs && e.end <= ce {
+					inner = append(inner, e)
+				} else {
+					rest = append(rest, e)
+				}
+			}
+			bodyEdits = rest
+			ct := append([]byte(nil), csrc[bodyStart+cs:bodyStart+ce]...)
+			sort.SliceStable(inner, func(a, b int) bool { return inner[a].off > inner[b].off })
+			for _, e := range inner {
+				ct = append(ct[:e.off-cs], append([]byte(e.text), ct[e.end-cs:]...)...)
+			}
+			deferred = append(deferred, deferredCall{d.Pos(), string(ct)})
+			bodyEdits = append(bodyEdits, textEdit{ctf.Offset(d.Pos()) - bodyStart, ctf.Offset(d.End()) - bodyStart, "", 0})
+		}
+	}
+	deferredAt := func(pos token.Pos) string {
+		var out []string
+		for i := len(deferred) - 1; i >= 0; i-- {
+			if deferred[i].pos < pos {
+				out = append(out, deferred[i].text)
+			}
+		}
+		if len(out) == 0 {
+			return ""
+		}
+		return strings.Join(out, "; ") + "; "
+	}
 	labelsSeen := map[string]bool{}
 	var walkBody func(n ast.Node) bool
 	walkBody = func(n ast.Node) bool {
@@ -949,13 +989,14 @@ func (il *inliner) inlineCall(pk *packages.Package, f *ast.File, file string, st
 			}
 		case *ast.ReturnStmt:
 			rs, re := ctf.Offset(x.Pos())-bodyStart, ctf.Offset(x.Pos())-bodyStart+len("return")
+			dtext := deferredAt(x.Pos())
 			switch {
 			case nres == 0:
-				bodyEdits = append(bodyEdits, textEdit{rs, re, "break " + label, 0})
+				bodyEdits = append(bodyEdits, textEdit{rs, re, "{ " + dtext + "break " + label + " }", 0})
 			case len(x.Results) == 0:
 				if cont != nil {
 					var cb strings.Builder
-					cb.WriteString("{ " + strings.Join(resTemps, ", ") + " = " + strings.Join(resultNames, ", ") + "; { ")
+					cb.WriteString("{ " + dtext + strings.Join(resTemps, ", ") + " = " + strings.Join(resultNames, ", ") + "; { ")
 					for i, n := range cont.names {
 						if n == "_" || n == "" {
 							continue
@@ -965,17 +1006,17 @@ func (il *inliner) inlineCall(pk *packages.Package, f *ast.File, file string, st
 					cb.WriteString(cont.text + " } ; break " + label + " }")
 					bodyEdits = append(bodyEdits, textEdit{rs, re, cb.String(), 0})
 				} else {
-					bodyEdits = append(bodyEdits, textEdit{rs, re, "break " + label, 0})
+					bodyEdits = append(bodyEdits, textEdit{rs, re, "{ " + dtext + "break " + label + " }", 0})
 				}
 			default:
 				lhs := resTemps
 				if len(resultNames) > 0 {
 					lhs = resultNames // named results are copied to the temporaries after the deferred calls
 				}
-				tailText := " ; break " + label + " }"
+				tailText := " ; " + dtext + "break " + label + " }"
 				if cont != nil {
 					var cb strings.Builder
-					cb.WriteString(" ; ")
+					cb.WriteString(" ; " + dtext)
 					if len(resultNames) > 0 {
 						cb.WriteString(strings.Join(resTemps, ", ") + " = " + strings.Join(resultNames, ", ") + "; ")
 					}
@@ -987,7 +1028,7 @@ func (il *inliner) inlineCall(pk *packages.Package, f *ast.File, file string, st
 						fmt.Fprintf(&cb, "var %s = %s; _ = %s; ", n, resTemps[i], n)
 					}
 					cb.WriteString(cont.text + " }")
-					tailText = cb.String() + tailText
+					tailText = cb.String() + " ; break " + label + " }"
 				}
 				bodyEdits = append(bodyEdits, textEdit{rs, re, "{ " + strings.Join(lhs, ", ") + " = ", 0})
 				e := ctf.Offset(x.End()) - bodyStart
@@ -997,52 +1038,9 @@ func (il *inliner) inlineCall(pk *packages.Package, f *ast.File, file string, st
 		return true
 	}
 	ast.Inspect(di.decl.Body, walkBody)
-	var deferFlags, deferPost []string
-	if convertDefers {
-		var returns []token.Pos
-		ast.Inspect(di.decl.Body, func(n ast.Node) bool {
-			if _, isLit := n.(*ast.FuncLit); isLit {
-				return false
-			}
-			if r, ok := n.(*ast.ReturnStmt); ok {
-				returns = append(returns, r.Pos())
-			}
-			return true
-		})
-		for i, d := range di.defers {
-			cs, ce := ctf.Offset(d.Call.Pos())-bodyStart, ctf.Offset(d.Call.End())-bodyStart
-			// the call text with the edits that fall inside it (package aliases)
-			var inner, rest []textEdit
-			for _, e := range bodyEdits {
-				if e.off >= cs && e.end <= ce {
-					inner = append(inner, e)
-				} else {
-					rest = append(rest, e)
-				}
-			}
-			bodyEdits = rest
-			ct := append([]byte(nil), csrc[bodyStart+cs:bodyStart+ce]...)
-			sort.SliceStable(inner, func(a, b int) bool { return inner[a].off > inner[b].off })
-			for _, e := range inner {
-				ct = append(ct[:e.off-cs], append([]byte(e.text), ct[e.end-cs:]...)...)
-			}
-			needFlag := false
-			for _, rp := range returns {
-				if rp < d.Pos() {
-					needFlag = true
-				}
-			}
-			ds, de := ctf.Offset(d.Pos())-bodyStart, ctf.Offset(d.End())-bodyStart
-			if needFlag {
-				fl := fmt.Sprintf("%s_d%d", k, i)
-				deferFlags = append(deferFlags, fl)
-				bodyEdits = append(bodyEdits, textEdit{ds, de, fl + " = true", 0})
-				deferPost = append([]string{"if " + fl + " { " + string(ct) + " }"}, deferPost...)
-			} else {
-				bodyEdits = append(bodyEdits, textEdit{ds, de, "", 0})
-				deferPost = append([]string{string(ct)}, deferPost...)
-			}
-		}
+	if nres == 0 && len(deferred) > 0 {
+		e := ctf.Offset(di.decl.Body.End()) - 1 - bodyStart
+		bodyEdits = append(bodyEdits, textEdit{e, e, "\n" + deferredAt(di.decl.Body.End()), 0})
 	}
 	body := append([]byte(nil), csrc[bodyStart:ctf.Offset(di.decl.Body.End())]...)
 	sort.SliceStable(bodyEdits, func(i, j int) bool {
@@ -1086,15 +1084,9 @@ func (il *inliner) inlineCall(pk *packages.Package, f *ast.File, file string, st
 	for i, n := range resultNames {
 		fmt.Fprintf(&b, "var %s = %s; _ = %s; ", n, resTemps[i], n)
 	}
-	for _, fl := range deferFlags {
-		fmt.Fprintf(&b, "var %s bool; ", fl)
-	}
 	fmt.Fprintf(&b, "%s: for { ", label)
 	b.Write(body)
 	fmt.Fprintf(&b, "\nbreak %s }\n", label)
-	for _, dp := range deferPost {
-		b.WriteString(dp + "\n")
-	}
 	if len(resultNames) > 0 {
 		fmt.Fprintf(&b, "%s = %s\n", strings.Join(resTemps, ", "), strings.Join(resultNames, ", "))
 	}
@@ -1363,7 +1355,7 @@ type contInfo struct {
 // where COND/THEN/ELSE use no name that the callee declares (they are going to be evaluated inside its body),
 // contain no break/continue/goto/label, and in P2 do not assign to a, b.
 func (il *inliner) continuation(pk *packages.Package, ins *insertion, call *ast.CallExpr, di *declInfo, sig *types.Signature, convertDefers bool, text func(ast.Node) string, typeText func(types.Type) string) *contInfo {
-	if convertDefers || ins.literalize || ins.dropStmt || sig.Results().Len() == 0 || ins.open != "" {
+	if ins.literalize || ins.dropStmt || sig.Results().Len() == 0 || ins.open != "" {
 		return nil
 	}
 	info := pk.TypesInfo
